@@ -76,31 +76,69 @@ def unopt(l):
 
 
 class Model:
-    """Runs the extracted model (build/modelrun) on batches of commands."""
+    """Runs the extracted model (build/modelrun) on batches of commands. One process is kept for the whole check
+    (the binary evaluates its generated tables when it starts, ~0.5 s): commands are written by a helper thread while
+    the answers are read line by line, so neither side can block on a full pipe."""
 
     def __init__(self):
         self.exe = os.path.join(BUILD, "modelrun")
         self.calls = 0
+        self.proc = None
 
     def available(self):
         return os.path.exists(self.exe)
 
+    def _start(self):
+        self.proc = subprocess.Popen([self.exe], stdin=subprocess.PIPE, stdout=subprocess.PIPE, stderr=subprocess.PIPE,
+                                     preexec_fn=_unlimit_stack, bufsize=1 << 20)
+        self.started_mtime = os.path.getmtime(self.exe)
+
+    def close(self):
+        if self.proc is not None:
+            try:
+                self.proc.stdin.close()
+                self.proc.wait(timeout=10)
+            except Exception:
+                self.proc.kill()
+            self.proc = None
+
     def run(self, cmds, chunk=20000):
         """cmds: list of python values (each a command list). Returns decoded results."""
+        import threading
         out = []
         for i in range(0, len(cmds), chunk):
             part = cmds[i:i + chunk]
-            text = "\n".join(enc(c) for c in part) + "\n"
-            p = subprocess.run([self.exe], input=text.encode(), stdout=subprocess.PIPE,
-                               stderr=subprocess.PIPE, timeout=1800,
-                               preexec_fn=_unlimit_stack)
-            if p.returncode != 0:
-                raise RuntimeError("modelrun failed: rc=%s %s" % (p.returncode, p.stderr.decode()[-500:]))
-            lines = p.stdout.decode().split("\n")
-            if lines and lines[-1] == "":
-                lines.pop()
+            if self.proc is None or self.proc.poll() is not None or os.path.getmtime(self.exe) != self.started_mtime:
+                self.close()
+                self._start()
+            text = ("\n".join(enc(c) for c in part) + "\n").encode()
+            proc = self.proc
+            err = []
+
+            def feed():
+                try:
+                    proc.stdin.write(text)
+                    proc.stdin.flush()
+                except Exception as e:       # the model died: the reader notices
+                    err.append(e)
+            t = threading.Thread(target=feed, daemon=True)
+            t.start()
+            lines = []
+            for _ in part:
+                ln = proc.stdout.readline()
+                if not ln:
+                    break
+                lines.append(ln.decode().rstrip("\n"))
+            t.join(timeout=60)
             if len(lines) != len(part):
-                raise RuntimeError("modelrun returned %d lines for %d commands" % (len(lines), len(part)))
+                rc = proc.poll()
+                tail = b""
+                try:
+                    tail = proc.stderr.read()[-500:] if rc is not None else b""
+                except Exception:
+                    pass
+                self.close()
+                raise RuntimeError("modelrun returned %d lines for %d commands (rc=%s) %s" % (len(lines), len(part), rc, tail.decode(errors="replace")))
             for ln in lines:
                 if ln.startswith("ERR"):
                     out.append(("ERR", ln))
